@@ -4,8 +4,8 @@
 cd /verif
 rc=0
 for p in tests/neutral/*.diff; do
-  git -C /repo apply --check $p 2>/dev/null || { echo "STALE $p (does not apply to HEAD any more)"; continue; }
-  git -C /repo apply $p
+  git -C /repo apply --check /verif/$p 2>/dev/null || { echo "STALE $p (does not apply to HEAD any more)"; continue; }
+  git -C /repo apply /verif/$p
   bad=0
   for i in $(seq -w 1 20); do
     out=$(./check C$i quick 2>&1 | tail -1)
